@@ -10,9 +10,8 @@
    invariant), [links_clean] (targets are stored cleaned, as Symlink stores them), the view root is a
    directory.  No hypothesis on permissions: any user.
 
-   What is NOT covered: walks the kernel refuses with ELOOP (more than 40 links; the implementation
-   allows 64 - [C04_refuted_budget]); paths that are not of the form "/c1/.../cn" with proper names
-   (handled by Clean: C01_unclean); EvalSymlinks' error KIND on a loop. *)
+   Both budgets are 40 links.  What is NOT covered: the corner [C04_refuted_lstat_corner]; paths that are not of the
+   form "/c1/.../cn" with proper names (handled by Clean: C01_unclean); EvalSymlinks' error KIND on a loop. *)
 From Avfs Require Import Base PathModel PathSpec PathProofs PathCleanProofs PathIterProofs.
 From Avfs Require Import MemFS MemFile World Posix WalkBridge WalkSym WalkBudget WalkReadlink.
 
@@ -43,18 +42,32 @@ Theorem C04_bridge_root_unsearchable :
   /\ kwalk (S fk) h (v_user v) kroot pm follow (v_root v) (c :: cs) cnt md = WErr EACCES.
 Proof. exact bridge_root_unsearchable. Qed.
 
-(* goal 2: with symbolic links; SlLstat <-> no-follow, SlStat / SlEval <-> follow *)
+(* goal 2: with symbolic links; SlLstat <-> no-follow, SlStat / SlEval <-> follow.  Both budgets are 40: a walk the
+   kernel refuses with ELOOP is refused by the implementation, and conversely - with ONE exception, characterised
+   exactly by [lstat_corner]: in Lstat mode the implementation counts the final link before deciding not to follow it,
+   so after exactly 40 links crossed, Lstat of a link answers ELOOP where the kernel answers the link. *)
 Theorem C04_resolve : forall (s : fsys) (sv : sview) (slm : slmode) (cs : list str),
   let v := sv_view sv in
   let h := f_heap s in
-  v_os v = Linux -> walk_wf h -> links_clean h ->
-  node_is_dir h (v_root v) = true ->
+  v_os v = Linux -> walk_wf h -> links_clean h -> node_is_dir h (v_root v) = true ->
   Forall good_comp cs ->
   let K := klookup s sv false (follow_of slm) (abs_path cs) in
   let r := search_node s v (abs_path cs) slm in
-  K <> WErr EFUEL -> K <> WErr ELOOP -> sr_err r <> EFuel ->
-  walk_rel h (v_user v) (v_root v) (precise_of slm) r K.
+  K <> WErr EFUEL -> sr_err r <> EFuel ->
+  walk_rel h (v_user v) (v_root v) (precise_of slm) r K \/ lstat_corner h slm r K.
 Proof. exact sym_bridge_lookup. Qed.
+
+(* Stat, Open, ReadFile, ReadDir, Chmod, Truncate, Mkdir-below, EvalSymlinks, ... : no exception at all *)
+Theorem C04_resolve_follow : forall (s : fsys) (sv : sview) (slm : slmode) (cs : list str),
+  let v := sv_view sv in
+  let h := f_heap s in
+  v_os v = Linux -> walk_wf h -> links_clean h -> node_is_dir h (v_root v) = true ->
+  Forall good_comp cs -> slmode_eqb slm SlLstat = false ->
+  let K := klookup s sv false true (abs_path cs) in
+  let r := search_node s v (abs_path cs) slm in
+  K <> WErr EFUEL -> sr_err r <> EFuel ->
+  walk_rel h (v_user v) (v_root v) (precise_of slm) r K.
+Proof. exact sym_bridge_lookup_follow. Qed.
 
 (* ... the model-fuel hypotheses discharged by sizes: T bounds the components of the stored targets *)
 Theorem C04_resolve_sized : forall (s : fsys) (sv : sview) (slm : slmode) (cs : list str) (T : nat),
@@ -67,7 +80,7 @@ Theorem C04_resolve_sized : forall (s : fsys) (sv : sview) (slm : slmode) (cs : 
   length cs + 1 + MAXSYMLINKS * T <= WALK_FUEL ->
   let K := klookup s sv false (follow_of slm) (abs_path cs) in
   let r := search_node s v (abs_path cs) slm in
-  K <> WErr ELOOP -> walk_rel h (v_user v) (v_root v) (precise_of slm) r K.
+  walk_rel h (v_user v) (v_root v) (precise_of slm) r K \/ lstat_corner h slm r K.
 Proof. exact sym_bridge_lookup_sized. Qed.
 
 (* the loop invariant itself, from any synchronised position of the two walks *)
@@ -77,15 +90,27 @@ Theorem C04_resolve_at : forall (h : heap) (v : view),
   forall (slm : slmode) (fk : nat), sync_goal h v slm fk.
 Proof. exact sym_bridge_at. Qed.
 
-(* between the two budgets the walks differ: a chain of 41 links *)
-Theorem C04_refuted_budget :
-  (let r := search_node (WalkSymExamples.chain_fs 41) WalkSymExamples.adminv (abs_path [WalkSymExamples.nm 0]) SlStat in
-   sr_err r = EFileExists /\ sr_child r = Some 42)
-  /\ klookup (WalkSymExamples.chain_fs 41) (WalkSymExamples.sv_of WalkSymExamples.adminv) false true
-             (abs_path [WalkSymExamples.nm 0]) = WErr ELOOP.
-Proof. exact WalkSymExamples.budget_differs. Qed.
+(* the budgets agree: a chain of 40 links resolves on both sides, the 41st link is refused on both sides *)
+Theorem C04_budget_40_41 :
+  (sr_child (search_node (WalkSymExamples.chain_fs 40) WalkSymExamples.adminv (abs_path [WalkSymExamples.nm 0]) SlStat) = Some 41
+   /\ klookup (WalkSymExamples.chain_fs 40) (WalkSymExamples.sv_of WalkSymExamples.adminv) false true
+              (abs_path [WalkSymExamples.nm 0]) = WNode 0 LNorm (WalkSymExamples.nm 40) 41)
+  /\ (sr_err (search_node (WalkSymExamples.chain_fs 41) WalkSymExamples.adminv (abs_path [WalkSymExamples.nm 0]) SlStat)
+      = ETooManySymlinks
+      /\ klookup (WalkSymExamples.chain_fs 41) (WalkSymExamples.sv_of WalkSymExamples.adminv) false true
+                 (abs_path [WalkSymExamples.nm 0]) = WErr ELOOP).
+Proof. split; [exact WalkSymExamples.budget_agree_40|exact WalkSymExamples.budget_agree_41]. Qed.
 
-(* Readlink after Symlink(t, n) returns Clean(t) (ELOOP if the path to n already crossed 64 links) *)
+(* the exception of C04_resolve is real: Lstat of a link in a directory reached through exactly 40 links *)
+Theorem C04_refuted_lstat_corner :
+  (let r := search_node (WalkSymExamples.corner_fs 40) WalkSymExamples.adminv
+                        (abs_path [WalkSymExamples.nm 0; WalkSymExamples.s_X]) SlLstat in
+   sr_err r = ETooManySymlinks /\ sr_child r = Some 42)
+  /\ klookup (WalkSymExamples.corner_fs 40) (WalkSymExamples.sv_of WalkSymExamples.adminv) false false
+             (abs_path [WalkSymExamples.nm 0; WalkSymExamples.s_X]) = WNode 41 LNorm WalkSymExamples.s_X 42.
+Proof. exact WalkSymExamples.lstat_corner_witness. Qed.
+
+(* Readlink after Symlink(t, n) returns Clean(t) (ELOOP if the path to n already crossed 40 links) *)
 Theorem C04_readlink : forall (s s' : fsys) (v : view) (t n : str),
   v_os v = Linux -> ptr_valid (f_heap s) -> node_is_dir (f_heap s) (v_root v) = true ->
   symlink s v t n = (s', ROk) ->
@@ -117,7 +142,7 @@ Theorem C04_nofollow_modes : forall (w : world) (vi : nat) (p o n : str) (uid gi
   /\ wstep w (CChown vi p uid gid) = on_view w vi (fun v => lift w (chown_gen SlEval (w_fs w) v p uid gid)).
 Proof. exact nofollow_modes. Qed.
 
-(* ... and that walk hands back a final symbolic link itself *)
+(* ... and that walk hands back a final symbolic link itself (or ELOOP in the corner above) *)
 Theorem C04_nofollow_final : forall (s : fsys) (sv : sview) (cs : list str) (par n : nat) (name t : str) (m : meta),
   let v := sv_view sv in
   let h := f_heap s in
@@ -127,7 +152,8 @@ Theorem C04_nofollow_final : forall (s : fsys) (sv : sview) (cs : list str) (par
   klookup s sv false false (abs_path cs) = WNode par LNorm name n -> get h n = Some (NSym t m) ->
   sr_err (search_node s v (abs_path cs) SlLstat) <> EFuel ->
   let r := search_node s v (abs_path cs) SlLstat in
-  sr_err r = EFileExists /\ sr_child r = Some n /\ sr_parent r = Some par /\ pi_part (sr_pi r) = name.
+  sr_child r = Some n /\ sr_parent r = Some par /\
+  ((sr_err r = EFileExists /\ pi_part (sr_pi r) = name) \/ sr_err r = ETooManySymlinks).
 Proof. exact nofollow_final. Qed.
 
 (* termination: on EVERY heap (cyclic link graphs included) the splice loop ends within
